@@ -17,7 +17,7 @@ def corrupt_expr(rnd, table, e):
     k = rnd.choice(["truncate", "unbalanced", "unknown", "arity-", "arity+", "garbage", "open-string", "dangling"])
     if k == "dangling":
         # a path cut right after a separator
-        return k, rnd.choice([".a.", ".a#", ".l#0.", "(+ .a. 1)", "(size .l#)", ".a.b.", "^.a.", "(get .o. \"k\")", ".l#1#", "(concat .s. \"x\")"])
+        return k, rnd.choice([".a.", ".a#", ".l#0.", "(+ .a. 1)", "(size .l#)", ".a.b.", "^.a.", "(get .o. \"k\")", ".l#1#", "(concat .s. \"x\")", "/c0", "/c", "(+ /c0 1"])
     if k == "truncate":
         if e.endswith(")"):
             return k, e[:-1]
